@@ -216,10 +216,33 @@ def tlc(module, cfg, wd, *, workers=4, timeout=900, env=None, simulate=None, dep
     return r
 
 
-def trace_validate(module, cfg, wd, trace_path, *, timeout=900, env=None, tag=None, xmx="6g"):
+def trace_validate(module, cfg, wd, trace_path, *, timeout=900, env=None, tag=None, xmx="6g", boundary=None, chunk=150000):
     """Leg C: TLC consumes an ndjson trace recorded from the real code (IOEnv.TRACE).
     Trace specs never block on a mismatch; they print <<"VIOL", json>> / <<"DRIFT", json>> lines
     and a final <<"TRACE_DONE", n>>; anything else is a tool error."""
+    # very long traces are validated in pieces (a piece starts at a boundary record, e.g. a reset): TLC's JSON reader
+    # holds the whole file in memory
+    if boundary is not None:
+        with open(trace_path) as f:
+            lines = f.readlines()
+        if len(lines) > chunk:
+            total, viol, drift, last, states, gen = 0, [], [], None, 0, 0
+            start = 0
+            while start < len(lines):
+                end = min(len(lines), start + chunk)
+                while end < len(lines) and not boundary(json.loads(lines[end])):
+                    end += 1
+                part = trace_path + ".part"
+                with open(part, "w") as f:
+                    f.writelines(lines[start:end])
+                r, n, v, d = trace_validate(module, cfg, wd, part, timeout=timeout, env=env, tag=(tag or module) + "_%d" % start, xmx=xmx)
+                if n != end - start:
+                    raise ToolError("trace validation consumed %d of %d records of the piece at %d" % (n, end - start, start))
+                total += n; viol += v; drift += d; last = r; states += r.distinct; gen += r.generated
+                os.remove(part)
+                start = end
+            last.distinct, last.generated = states, gen
+            return last, total, viol, drift
     e = {"TRACE": trace_path}
     if env:
         e.update(env)
